@@ -53,10 +53,15 @@ def dump_reload(data):
 SCALARS = ["1", "1", "2", "5", "300", "a", "b", "x", "x", "foo", "bar", "'q'", '"dq"', "1.5", "true", "false",
            "null", "k1", "c", "''", "-3"]
 KEYS = ["a", "b", "c", "x", "k1", "foo", "d", "e"]
+# "7" loads as the INTEGER key 7: a path segment 7 reaches it through the str/int fallback of _get_nodes_by_key
+# (C03 / C04 histories only: the creation model of C09 does not cover that fallback)
+KEYS_INT = KEYS + ["7"]
 
 
 class DocGen:
-    def __init__(self, rng, max_depth=3, sets=True, container_aliases=False, key_aliases=True, map_anchors=False):
+    def __init__(self, rng, max_depth=3, sets=True, container_aliases=False, key_aliases=True, map_anchors=False,
+                 int_keys=False):
+        self.keys = KEYS_INT if int_keys else KEYS
         self.rng = rng
         # anchored MAPPINGS (&m1 {...}, scalar values only, never aliased as a value: every container object
         # stays in the document once), keys spelled like those anchor names at other places, and mappings that
@@ -99,7 +104,7 @@ class DocGen:
         if self.map_anchors and self.mpool and rng.random() < 0.22:
             name = self.mpool.pop(0)
             n = rng.choice([1, 2, 2, 3])
-            keys = rng.sample(KEYS, n)
+            keys = rng.sample(self.keys, n)
             txt = "&%s {%s}" % (name, ", ".join("%s: %s" % (k, self.scalar(allow_alias=False)) for k in keys))
             self.mdone.append(name)
             return txt
@@ -120,7 +125,7 @@ class DocGen:
     def map(self, depth):
         rng = self.rng
         n = rng.choice([0, 1, 2, 2, 3, 4])
-        keys = rng.sample(KEYS, n)
+        keys = rng.sample(self.keys, n)
         items = []
         if self.map_anchors:
             if rng.random() < 0.35:
